@@ -684,8 +684,12 @@ class Stream(AbstractStream):
         """
         if isinstance(stream_data, StreamData):
             self.empty()
-            self.phases = stream_data._phases
-            self._imol.copy_like(stream_data._imol)
+            phases = stream_data._phases
+            imol = stream_data._imol
+            self.phases = phases
+            if len(phases) == 1 and isinstance(imol, MaterialIndexer):
+                imol = imol.get_phase(phases[0])
+            self._imol.copy_like(imol)
             self._thermal_condition.copy_like(stream_data)
         else:
             raise ValueError(f'stream_data must be a StreamData object; not {type(stream_data).__name__}')
